@@ -181,6 +181,27 @@ func genC18(c *Ctx) {
 		}
 	}
 
+	// 3b. frames on one TCP connection are served independently: a long valid frame, then a shorter frame whose
+	// header announces records it does not carry (every truncation of a release / query / registration)
+	{
+		ip := []byte{0, 0, 10, 1, 2, 3}
+		long, _ := c18Packet(c18P(0x1111, 0x2910, nil, []Val{c18R("HOSTB", "a-rather-long-scope.example", 0x20, 1, 300, ip), c18R("HOSTA", "", 0x20, 1, 300, ip)})).Marshal()
+		for _, p := range []Val{
+			c18P(0x2222, 0x3000, nil, []Val{c18R("HOSTA", "", 0x20, 1, 300, ip)}),
+			c18P(0x3333, 0x0110, []Val{c18Q("HOSTA", "", 0x20, 1)}, nil),
+			c18P(0x4444, 0x2910, nil, []Val{c18R("HOSTC", "", 0x20, 1, 300, ip)}),
+		} {
+			full, err := c18Packet(p).Marshal()
+			if err != nil || long == nil {
+				continue
+			}
+			for cut := 0; cut <= len(full); cut += c.N(3, 1) {
+				c.Check("c18.tcp_frames_independent", B(long), B(full[:cut]))
+			}
+			c.Check("c18.tcp_frames_independent", B(long), B(full[:12]))
+		}
+	}
+
 	// 4. DefendName / HandleRedirect
 	for rep := 0; rep < c.N(300, 3000); rep++ {
 		ops := c18RandOps(r, r.Intn(5), true)
